@@ -483,3 +483,81 @@ impl<'h> HitObjectPatternGenerator<'h> {
         initial_column
     }
 }
+
+/// Verification hook (`--cfg rosu_pp_verif`): drives the real
+/// `find_available_column` / `get_next_column` with chosen column sets.
+#[cfg(rosu_pp_verif)]
+pub mod verif {
+    use rosu_map::util::Pos;
+
+    use crate::model::hit_object::HitObjectKind;
+
+    use super::*;
+
+    /// Runs `HitObjectPatternGenerator::find_available_column` on a generator
+    /// with `total_columns` columns and a PRNG seeded with `seed`.
+    ///
+    /// `patterns` lists the occupied columns of each pattern. `gathered`:
+    /// `Some(true)` passes `get_next_column` with `PatternType::GATHERED` set,
+    /// `Some(false)` passes `get_next_column` without it (random draws),
+    /// `None` passes no function (random draws in `[random_start, upper)`).
+    pub fn find_available_column(
+        total_columns: i32,
+        initial_column: u8,
+        upper: Option<i32>,
+        gathered: Option<bool>,
+        seed: i32,
+        patterns: &[Vec<u8>],
+    ) -> u8 {
+        let map = Beatmap::default();
+        let obj = HitObject {
+            pos: Pos::default(),
+            start_time: 0.0,
+            kind: HitObjectKind::Circle,
+        };
+        let prev = PrevValues::default();
+        let mut random = Random::new(seed);
+
+        let mut gen = HitObjectPatternGenerator::new(
+            &mut random,
+            &obj,
+            HitSoundType::default(),
+            total_columns,
+            &prev,
+            0.0,
+            &map,
+        );
+
+        gen.convert_type = if gathered == Some(true) {
+            PatternType::GATHERED
+        } else {
+            PatternType::default()
+        };
+
+        let patterns: Vec<Pattern> = patterns
+            .iter()
+            .map(|columns| {
+                let mut pattern = Pattern::default();
+
+                for &column in columns {
+                    pattern.add_object(obj.clone(), column);
+                }
+
+                pattern
+            })
+            .collect();
+
+        let patterns: Vec<&Pattern> = patterns.iter().collect();
+
+        if gathered.is_some() {
+            gen.find_available_column(
+                initial_column,
+                upper,
+                Some(HitObjectPatternGenerator::get_next_column),
+                &patterns,
+            )
+        } else {
+            gen.find_available_column(initial_column, upper, None, &patterns)
+        }
+    }
+}
